@@ -29,13 +29,13 @@ def demo_cmd(d, wt):
         shutil.copy(t, dst)
         files.append(dst)
         names = re.findall(r'^func (Test\w+)\(', src, re.M)
-        return 'cd %s/v4 && go test -vet=off -count=1 -run "^(%s)$" ./%s/' % (wt, '|'.join(names), sub), files
+        return 'cd %s/v4 && go test -tags verif -vet=off -count=1 -run "^(%s)$" ./%s/' % (wt, '|'.join(names), sub), files
     t = os.path.join(d, 'demo')
     if os.path.isdir(t):
         dst = os.path.join(wt, 'v4', 'zzdemo')
         shutil.copytree(t, dst)
         files.append(dst)
-        return 'cd %s/v4 && go run ./zzdemo' % wt, files
+        return 'cd %s/v4 && go run -tags verif ./zzdemo' % wt, files
     raise SystemExit('no demo in ' + d)
 
 
